@@ -161,7 +161,10 @@ def rule_r3_header(ctx: Ctx) -> None:
     if isinstance(inner, str):
         raise AnalysisError("an inner structure cannot be constructed over abstract arguments: %s" % inner)
     vals = set()
-    for extent in (8, 64, 8 * 1000):
+    # small, ordinary and huge extents, on both sides of every power of two at which a "smallest integer that can hold the
+    # extent" would change its mind (2**8, 2**16, 2**32 bytes and bits): the header does not depend on the extent
+    extents = [8, 64, 8 * 1000] + [8 * (2**k + d) for k in (8, 16, 29, 32, 35, 40, 56) for d in (-1, 0, 1)]
+    for extent in extents:
         o = M.build_model(ctx, SER + "_composite.DelimitedType", inner=inner, extent=extent)
         if isinstance(o, str):
             raise AnalysisError("DelimitedType(inner, %d) raised %s over abstract arguments" % (extent, o))
